@@ -11,7 +11,7 @@
 (* a pristine source reports -- the abstract value of an attribute of a    *)
 (* result is a function of (source, selection, attribute) only.  TLC       *)
 (* enumerates the histories (all `pre` of at most MaxPre attributes x the  *)
-(* three slice kinds) and prints them; the harness replays each, reads ALL *)
+(* five selection kinds) and prints them; the harness replays each, reads ALL *)
 (* attributes on the result and on the pristine subset, and the judge      *)
 (* fails every attribute whose two reads differ (clauses same_<attr>).     *)
 (***************************************************************************)
@@ -23,7 +23,9 @@ VARIABLES pre, kind, phase
 vars == << pre, kind, phase >>
 
 Attrs == 1..NAttr
-Kinds == { "face", "node", "edge" }
+\* index selections along the three grid dimensions, and the constant-latitude queries (cross-section grid, face list
+\* + edge list) at a latitude in the bulge band of a wide face
+Kinds == { "face", "node", "edge", "xsec", "faces_at" }
 
 Init == pre = {} /\ kind = "none" /\ phase = "src"
 Read(a)  == phase = "src" /\ a \notin pre /\ Cardinality(pre) < MaxPre /\ pre' = pre \cup { a } /\ UNCHANGED << kind, phase >>
